@@ -1,4 +1,5 @@
 SPECIFICATION Spec
 INVARIANT OutInv
 INVARIANT SafetyInv
+VIEW View
 CHECK_DEADLOCK FALSE
